@@ -5,3 +5,4 @@ import VModel.Generated.Typesets
 import VModel.Generated.BoolMap
 import VModel.Generated.SparkTable
 import VModel.Generated.PandasDtypes
+import VModel.Generated.NumpyDtypes
